@@ -245,11 +245,15 @@ Proof.
   { destruct (cp_input p) as [c|src] eqn:Hin; cbn in Hwant; [assumption|].
     rewrite <- Hwant. symmetry. eapply read_src_frame; eauto. eapply no_alias_copy_src; eauto. }
   rewrite Hw, String.eqb_refl. cbn [andb].
-  destruct (cp_mode p) as [| |ms] eqn:Hm; cbn [want_mode mode_ok].
-  - reflexivity.
+  destruct (cp_mode p) as [| |ms] eqn:Hm; cbn [want_mode mode_ok keep_mode_ok].
+  - (* no mode requested: an existing destination keeps its bits *)
+    cbn [andb]. destruct Hmode as [Hmf _].
+    destruct Hfirst as [->|(Hnone & _)].
+    + rewrite Hopen. now apply N.eqb_eq.
+    + now rewrite Hnone.
   - destruct Hmode as (src & n & Hin & Hsn & Hpre & _). rewrite Hin.
-    destruct (Hpre (no_alias_copy_src _ _ _ Hin Hna)) as [Hs Hmf]. rewrite Hs. cbn. now apply N.eqb_eq.
-  - destruct Hmode as (m & Ho & Hmf & _). rewrite Ho. cbn. apply N.eqb_eq. exact Hmf.
+    destruct (Hpre (no_alias_copy_src _ _ _ Hin Hna)) as [Hs Hmf]. rewrite Hs. cbn. rewrite andb_true_r. now apply N.eqb_eq.
+  - destruct Hmode as (m & Ho & Hmf & _). rewrite Ho. cbn. rewrite andb_true_r. apply N.eqb_eq. exact Hmf.
 Qed.
 
 (* C04, copy: reported `ok` means nothing was done at all, outside K8 *)
